@@ -21,6 +21,8 @@ type c14path struct {
 	Qos         int32  `json:"qos"`
 	Withhold    int    `json:"subscription_gossip_withheld_from_node"` // 0 = none
 	Extra       int    `json:"second_matching_subscriber_on_node"`      // 0 = none; subscribes last, so matching subscriptions alternate between nodes
+	Slow        []int  `json:"slow_nodes"`                              // nodes whose log takes 2 s per append
+	Roam        bool   `json:"subscription_of_a_node1_session_re-created_through_node_2_rpc"`
 }
 
 var c14pairs = [][3]string{{"a/b", "a/+", "a/c"}, {"a", "a/#", "b/#"}, {"a/b/c", "#", "+"}, {"a/b", "+/b", "a/b/c"}}
@@ -63,18 +65,25 @@ func c14paths() []c14path {
 							if n == 3 && q == 2 && !vk.Thorough() {
 								continue
 							}
-							out = append(out, c14path{n, pn, hosts, un, pi, q, 0, 0})
+							out = append(out, c14path{n, pn, hosts, un, pi, q, 0, 0, nil, false})
+							if pi == 0 && q == 1 && len(un) > 0 && len(un) < len(remotes) {
+								// the nodes that were unreachable are slow instead: everybody must still get the message
+								out = append(out, c14path{n, pn, hosts, nil, pi, q, 0, 0, un, false})
+							}
+							if pi == 0 && q == 1 && len(un) == 0 && n == 2 && pn == 1 && hosts[0]&1 != 0 {
+								out = append(out, c14path{n, pn, hosts, nil, pi, q, 0, 0, nil, true})
+							}
 							if pi == 0 && q == 1 {
 								for ex := 1; ex <= n; ex++ {
 									if hosts[ex-1]&1 != 0 {
-										out = append(out, c14path{n, pn, hosts, un, pi, q, 0, ex})
+										out = append(out, c14path{n, pn, hosts, un, pi, q, 0, ex, nil, false})
 									}
 								}
 							}
 							if vk.Thorough() && pi == 0 && q == 1 {
 								for _, r := range remotes {
 									if hosts[r-1]&1 != 0 {
-										out = append(out, c14path{n, pn, hosts, un, pi, q, r, 0})
+										out = append(out, c14path{n, pn, hosts, un, pi, q, r, 0, nil, false})
 									}
 								}
 							}
@@ -138,6 +147,20 @@ func TestC14CrossNode(t *testing.T) {
 					c.Subscribe(1, 1, match)
 					w.Step()
 					subs = append(subs, sub{c, p.Extra, true})
+				}
+				var roamOld *Client
+				if p.Roam {
+					// a session connected on node 1 whose subscription is re-created through node 2's RPC API
+					// (CreateSubscription): the entry then names node 2, where the session is not connected
+					roamOld = w.NewClient("roamer", 1, AckAll)
+					roamOld.Connect(ConnectOpts{ClientID: "roamer", KeepAlive: 600})
+					roamOld.Subscribe(1, 1, match)
+					w.Step()
+					w.Node(2).DState.Subscriptions().CreateFrom(roamOld.SessionID, 2, []byte("_default/"+match), 1)
+					w.Step()
+				}
+				for _, sn := range p.Slow {
+					w.SlowLog(sn, 2*time.Second)
 				}
 				pub := w.NewClient("pub", p.Publisher, AckAll)
 				pub.Connect(ConnectOpts{ClientID: "pub", KeepAlive: 600})
@@ -212,6 +235,22 @@ func TestC14CrossNode(t *testing.T) {
 							sig = "c14-subscriber-extra"
 						}
 						viol(sig, "subscriber %s on node %d (matching=%v) received the message %d time(s), expected %d", s.c.Name, s.node, s.matching, got, want)
+						return
+					}
+				}
+				if p.Roam {
+					// the subscription of session X now belongs to node 2: node 1 must not write to the stale connection
+					cnt := func(c *Client) int {
+						n := 0
+						for _, pk := range c.Publishes() {
+							if string(pk.Payload) == "payload-1" {
+								n++
+							}
+						}
+						return n
+					}
+					if cnt(roamOld) != 0 {
+						viol("c14-written-to-session-of-another-node", "the roamer's subscription names node 2, yet node 1 wrote the message %d time(s) to its local connection", cnt(roamOld))
 						return
 					}
 				}
